@@ -16,3 +16,31 @@ package ipfs
 //@   ensures result == nil ==> verifyOK(p, ptr(entry, "entry.Entry").Identity)
 //@   ensures (forall j Int :: 0 <= j && j < len(i.writeAccess) ==> i.writeAccess[j] != id && i.writeAccess[j] != "*") ==> result != nil
 //@   modifies nothing
+
+// Save (C14): the saved-parameters address is the content address of the JSON of the write list, a
+// function of the list alone.
+//@ func (*ipfsAccessController).Save
+//@   props C14
+//@   flag nilcalls
+//@   requires i.logger != nil
+//@   ensures result1 == nil ==> result != nil && ptr(result, "accesscontroller.CreateAccessControllerOptions").Address == writeHash(bytes2str(encJSON(boxv(i.writeAccess, "[]string")))) && !ptr(result, "accesscontroller.CreateAccessControllerOptions").SkipManifest
+
+// NewIPFSAccessController (C14 C03): with no write list given the creator's own id is the only writer;
+// a non-empty list is kept as given.
+//@ extern param:NewIPFSAccessController.o as o(ac)
+//@   modifies "F:ipfs.ipfsAccessController.logger"
+//@ spec func dbIdentity(db Iface) Int
+//@ extern (berty.tech/go-orbit-db/iface.BaseOrbitDB).Identity as (db).Identity() (id)
+//@   ensures id == dbIdentity(db) && id != nil
+//@   modifies nothing
+//@ noeffect (berty.tech/go-orbit-db/iface.BaseOrbitDB).IPFS
+//@ func NewIPFSAccessController
+//@   props C14 C03
+//@   flag nilcalls
+//@   requires params != nil ==> ref(params) != 0
+//@   ghost P := ptr(params, "accesscontroller.CreateAccessControllerOptions")
+//@   ghost W0 := P.Access["write"]
+//@   loop 1 invariant ac != nil && ac.writeAccess == allowedIDs
+//@   ensures result1 == nil ==> typeis(result, "*berty.tech/go-orbit-db/accesscontroller/ipfs.ipfsAccessController") && ref(result) != 0
+//@   ensures result1 == nil && len(W0) == 0 ==> len(ptr(result, "berty.tech/go-orbit-db/accesscontroller/ipfs.ipfsAccessController").writeAccess) == 1 && ptr(result, "berty.tech/go-orbit-db/accesscontroller/ipfs.ipfsAccessController").writeAccess[0] == ptr(dbIdentity(db), "identityprovider.Identity").ID
+//@   ensures result1 == nil && len(W0) > 0 ==> ptr(result, "berty.tech/go-orbit-db/accesscontroller/ipfs.ipfsAccessController").writeAccess == W0
